@@ -36,9 +36,20 @@ func LoadWordVectors(filepath string) (*Index, error) {
 		return nil, fmt.Errorf("failed to read vocab size: %w", err)
 	}
 
+	const dimension = 100 // GloVe 100d
+
+	// Never trust the header for allocation: a file of this size cannot hold more
+	// records than its length allows (each needs a length prefix and a vector)
+	sizeHint := uint64(vocabSize)
+	if info, statErr := f.Stat(); statErr == nil {
+		if maxRecords := uint64(info.Size()) / (2 + 4*dimension); sizeHint > maxRecords {
+			sizeHint = maxRecords
+		}
+	}
+
 	idx := &Index{
-		Dimension:   100, // GloVe 100d
-		WordVectors: make(map[string][]float32, vocabSize),
+		Dimension:   dimension,
+		WordVectors: make(map[string][]float32, sizeHint),
 	}
 
 	// Read each word and vector
@@ -90,6 +101,13 @@ func (idx *Index) LoadCommandEmbeddings(filepath string) error {
 
 	if int(dimension) != idx.Dimension {
 		return fmt.Errorf("dimension mismatch: expected %d, got %d", idx.Dimension, dimension)
+	}
+
+	// The header must be consistent with the file size before anything is allocated from it
+	if info, statErr := f.Stat(); statErr == nil {
+		if need := 8 + uint64(numCommands)*uint64(dimension)*4; need > uint64(info.Size()) {
+			return fmt.Errorf("command embeddings truncated: header needs %d bytes, file has %d", need, info.Size())
+		}
 	}
 
 	// Read embeddings
